@@ -208,6 +208,8 @@ def run(ctx):
         import xarray
         for n in range(3 if quick else 12):
             fam = rng.choice(['cf2d', 'shoc_simple', 'shoc_standard'])
+            if n == 0:
+                fam = 'cf2d'
             d = gen.any_dataset(rng, fam, holes=rng.choice(['corner', 'edge', 'random', 'interior']), invalid=False)
             src = os.path.join(tmp, f'cli_in_{n}.nc')
             enc = {}
@@ -242,6 +244,35 @@ def run(ctx):
                         ctx.report('property', f'the {fmt} file written by the command line tool differs from the geometry of '
                                    f'emsarray.open_dataset(input) written by the library', case)
                         break
+            # ---- the same file exported whole and then in part (a subset keeps the file name it was read from in its encoding):
+            # each export holds the polygons of the dataset it was given
+            if fam in ('cf2d', 'shoc_simple'):
+                ydim = d.spec['kinds']['face'][0]
+                if ondisk.sizes[ydim] >= 2:
+                    sub = ondisk.isel({ydim: slice(0, ondisk.sizes[ydim] - 1)})
+                    with warnings.catch_warnings():
+                        warnings.simplefilter('ignore')
+                        sr = attempt(lambda: [p_ for p_ in sub.ems.polygons if p_ is not None])
+                    if sr[0] == 'ok':
+                        for fmt in ('wkt', 'wkb', 'geojson'):
+                            spath = os.path.join(tmp, f'subset_{n}.{fmt}')
+                            scase = {'dataset': d.spec['label'], 'format': fmt, 'exported': f'whole file, then its first {sub.sizes[ydim]} rows'}
+                            ctx.case((d.spec['label'], 'subset after whole', fmt), True)
+                            ctx.count('export:subset after the whole file')
+                            with warnings.catch_warnings():
+                                warnings.simplefilter('ignore')
+                                w_ = attempt(getattr(geometry_ops, f'write_{fmt}'), sub, spath)
+                            if w_[0] != 'ok':
+                                ctx.report('property', f'write_{fmt} of a subset failed: {w_[1]}', scase)
+                                continue
+                            if fmt == 'geojson':
+                                got_n = len(json.load(open(spath))['features'])
+                            else:
+                                gm_ = shapely.from_wkt(open(spath).read()) if fmt == 'wkt' else shapely.from_wkb(open(spath, 'rb').read())
+                                got_n = len(gm_.geoms)
+                            if got_n != len(sr[1]):
+                                ctx.report('property', f'the {fmt} export of the subset holds {got_n} polygons, the subset has {len(sr[1])} '
+                                           f'cells with polygons', scase)
             ondisk.close()
         # ---- a large model (more than 100 000 cells, three cells without geometry): every feature still records ITS cell
         ny_b, nx_b = 3, 33400
@@ -256,7 +287,7 @@ def run(ctx):
                              coords={'lat2': (('y', 'x'), lat2, {'units': 'degrees_north', 'bounds': 'lat_bnds'}),
                                      'lon2': (('y', 'x'), lon2, {'units': 'degrees_east', 'bounds': 'lon_bnds'})})
         n_wet = nx_b
-        for fmt in (['geojson'] if quick else ['geojson', 'shapefile']):
+        for fmt in ['geojson', 'shapefile']:
             case = {'dataset': f'cf2d {ny_b}x{nx_b} (100200 cells, the first 66800 without coordinates)', 'format': fmt}
             ctx.case(('big', fmt), True)
             ctx.count(f'large_dataset:{fmt}')
